@@ -197,6 +197,16 @@ def nested_programs():
             mixed.append("    " + "  " * i + "end")
         mixed += ["    x <=> 1", "end"]
         out.append(("nested-mixed-%d" % depth, "\n".join(mixed) + "\n"))
+    # closures handed to a higher-order function, each calling the one before twice (since /repo 8ab9717 a copy of a type
+    # does not follow the constraints of basic types: before, every read of a function value copied everything its ints
+    # had ever been combined with -- 20 nested closures: 42 s and 25 GB)
+    for n in (20, 30):
+        ls = ["zap :: fn f: fn int -> int, x: int -> int do", "    f(x)", "end", "start :: fn do",
+              "    c0 :: fn x: int -> int do x + 1 end"]
+        for i in range(1, n + 1):
+            ls.append("    c%d :: fn x: int -> int do zap(c%d, x) + c%d(x) end" % (i, i - 1, i - 1))
+        ls += ["    zap(c%d, 1)" % n, "end"]
+        out.append(("closures-hof-%d" % n, "\n".join(ls) + "\n"))
     return out
 
 
